@@ -60,9 +60,10 @@ impl DynamicChannelRegion for IN865Region {
                                 }
                             }
                             DR::_7 => DR::_7,
+                            // DR6 is RFU in this region: DR4 with offset 7 maps to DR5
                             _ => u8::into(core::cmp::min(
                                 tx_dr as u8 + rx1_dr_offset - 5,
-                                DR::_7 as u8,
+                                DR::_5 as u8,
                             )),
                         }
                     }
